@@ -639,7 +639,8 @@ func (nz *normalizer) stmtEdits(pk *packages.Package, file *ast.File, root ast.N
 			if !nz.isNewHelper(callee) {
 				return
 			}
-			if ok, _ := nz.inlinable(callee); !ok || nz.captured(callee, pk, call.Pos()) {
+			// as a function literal the body keeps its own defers, labels and returns
+			if sg := callee.Type().(*types.Signature); sg.Variadic() || sg.TypeParams().Len() > 0 || sg.RecvTypeParams().Len() > 0 || nz.captured(callee, pk, call.Pos()) {
 				return
 			}
 			d := nz.decl[callee]
